@@ -23,7 +23,7 @@ def _is_mutable_value(e: ast.AST) -> bool:
                                                         "WeakValueDictionary", "weakref.WeakValueDictionary")
 
 
-@rule("C09.R8", ["C09", "C17", "C01", "C05", "C14", "C15", "C02", "C03"], min_instances=1, design="3.9")
+@rule("C09.R8", ["C09", "C17", "C01", "C05", "C14", "C15", "C02", "C03", "C10"], min_instances=1, design="3.9")
 def no_shared_mutable_state(ctx):
     """No module-level or class-level mutable container is mutated by the package's functions (a memo table, a registry, a class-attribute cache): such state is shared by every query / index / database object of the process."""
     shared: Dict[str, ast.AST] = {}
@@ -70,11 +70,56 @@ def no_shared_mutable_state(ctx):
                 key = f"{base.value.id}.{base.attr}"
             if key is not None:
                 bad.append((f, x, key))
+    # ... nor handed to an instance as one of its own containers (a shared default: mutating one object's
+    # tags/fields/positions then changes every object that got the same default)
+    def _value_positions(e):
+        yield e
+        if isinstance(e, ast.IfExp):
+            yield from _value_positions(e.body)
+            yield from _value_positions(e.orelse)
+        elif isinstance(e, ast.BoolOp):
+            for v_ in e.values:
+                yield from _value_positions(v_)
+        elif isinstance(e, ast.NamedExpr):
+            yield from _value_positions(e.value)
+        elif isinstance(e, ast.Call) and isinstance(e.func, ast.Attribute) and e.func.attr in ("get", "pop", "setdefault") \
+                and len(e.args) == 2:
+            yield from _value_positions(e.args[1])
+        elif isinstance(e, ast.Call) and isinstance(e.func, ast.Name) and e.func.id == "getattr" and len(e.args) == 3:
+            yield from _value_positions(e.args[2])
+    for f in ctx.prog.all_funcs():
+        if not f.cls:
+            continue
+        for st in walk_local(f.node):
+            if not (isinstance(st, (ast.Assign, ast.AnnAssign)) and getattr(st, "value", None) is not None):
+                continue
+            tg = [t for t in (st.targets if isinstance(st, ast.Assign) else [st.target]) if is_self_attr(t)]
+            if not tg:
+                continue
+            for v_ in _value_positions(st.value):
+                key = None
+                if isinstance(v_, ast.Name) and v_.id in shared:
+                    key = v_.id
+                elif isinstance(v_, ast.Attribute) and isinstance(v_.value, ast.Name):
+                    owners = ctx.prog.mro(f.cls) if v_.value.id in ("self", "cls") else [v_.value.id]
+                    if v_.value.id == "self" and v_.attr == tg[0].attr:
+                        continue
+                    for cn in owners:
+                        if f"{cn}.{v_.attr}" in shared:
+                            # an instance attribute of the same name set in __init__ shadows the class-level one
+                            init = ctx.prog.lookup_method(f.cls, "__init__")
+                            shadow = v_.value.id == "self" and init is not None and any(
+                                isinstance(a, (ast.Assign, ast.AnnAssign)) and any(is_self_attr(t, v_.attr) for t in (
+                                    a.targets if isinstance(a, ast.Assign) else [a.target])) for a in walk_local(init.node))
+                            if not shadow:
+                                key = f"{cn}.{v_.attr}"
+                if key is not None:
+                    bad.append((f, st, key + " (bound to an instance attribute)"))
     if not bad:
-        yield Ob("C09.R8", ["C09", "C17", "C01", "C05", "C14", "C15", "C02", "C03"], "package | no shared mutable state", True,
+        yield Ob("C09.R8", ["C09", "C17", "C01", "C05", "C14", "C15", "C02", "C03", "C10"], "package | no shared mutable state", True,
                  f"{n_funcs} functions, {len(shared)} module/class-level containers, none is mutated", "tinyflux/:0")
     for f, x, key in bad:
-        yield Ob("C09.R8", ["C09", "C17", "C01", "C05", "C14", "C15", "C02", "C03"], f"{f.qual} | mutates shared container {key}{occ(f, x)}",
+        yield Ob("C09.R8", ["C09", "C17", "C01", "C05", "C14", "C15", "C02", "C03", "C10"], f"{f.qual} | mutates shared container {key}{occ(f, x)}",
                  False, f"`{norm(x, 60)}` writes the process-wide container `{key}`: what one query / index / database stored there "
                  f"is served to another", ctx.prog.loc(x))
     GLOBAL_MUTATORS = ("csv.register_dialect", "csv.unregister_dialect", "csv.field_size_limit", "locale.setlocale",
@@ -303,3 +348,83 @@ def storage_is_iterated_verbatim(ctx):
                          ctx.prog.loc(lp))
     if n < 10:
         raise AnalysisError("C02.R8", f"expected >=10 storage loops in database.py, found {n}")
+
+
+@rule("C14.R7", ["C14", "C05", "C01"], min_instances=4, design="3.14")
+def constructor_slots_come_from_their_own_keyword(ctx):
+    """Every store into a Point slot inside `Point.__init__` takes the value of the keyword of the same name (or a default): validation is by keyword name, so a positional unpacking of `kwargs.values()` or a crossed keyword stores a value that was validated for another slot."""
+    init = ctx.prog.func("Point.__init__", "C14.R7")
+    slots = {"_time": "time", "_measurement": "measurement", "_tags": "tags", "_fields": "fields"}
+    kwn = init.node.args.kwarg.arg if init.node.args.kwarg else "kwargs"
+    n = 0
+
+    def ok_value(v: ast.AST, key: str) -> bool:
+        if isinstance(v, ast.Call) and isinstance(v.func, ast.Attribute) and v.func.attr in ("get", "pop") \
+                and norm(v.func.value) == kwn and v.args:
+            return const_value(v.args[0]) == key
+        if isinstance(v, ast.Subscript) and norm(v.value) == kwn:
+            return const_value(v.slice) == key
+        if isinstance(v, ast.IfExp):
+            return ok_value(v.body, key) and ok_value(v.orelse, key)
+        # anything that does not read the keyword mapping is a default
+        return not any(isinstance(x, ast.Name) and x.id == kwn for x in ast.walk(v))
+    for st in walk_local(init.node):
+        if not isinstance(st, (ast.Assign, ast.AnnAssign)) or getattr(st, "value", None) is None:
+            continue
+        for t in (st.targets if isinstance(st, ast.Assign) else [st.target]):
+            pairs = []
+            if is_self_attr(t) and t.attr in slots:
+                pairs = [(t, st.value)]
+            elif isinstance(t, (ast.Tuple, ast.List)) and any(is_self_attr(e) and e.attr in slots for e in t.elts):
+                if isinstance(st.value, (ast.Tuple, ast.List)) and len(st.value.elts) == len(t.elts):
+                    pairs = [(e, v) for e, v in zip(t.elts, st.value.elts) if is_self_attr(e) and e.attr in slots]
+                else:
+                    pairs = [(e, None) for e in t.elts if is_self_attr(e) and e.attr in slots]
+            for e, v in pairs:
+                n += 1
+                good = v is not None and ok_value(v, slots[e.attr])
+                yield Ob("C14.R7", ["C14", "C05", "C01"], f"{init.qual} | slot {e.attr} | {norm(st, 70)}{occ(init, st)}", good,
+                         f"takes keyword '{slots[e.attr]}' or a default" if good else
+                         (f"`{norm(st, 70)}` fills {e.attr} by position from `{norm(st.value, 40)}`: which value lands in which slot depends "
+                          f"on the order the keywords were written, not on their names" if v is None else
+                          f"`{norm(v, 50)}` is not the keyword '{slots[e.attr]}': the stored value was validated for another slot"),
+                         ctx.prog.loc(st))
+    if n < 4:
+        raise AnalysisError("C14.R7", f"expected >=4 slot stores in Point.__init__, found {n}")
+
+
+PATH_PROBES = ("os.path.exists", "os.path.isfile", "os.path.isdir", "os.path.lexists", "os.path.islink", "os.access")
+
+
+@rule("C13.R7", ["C13", "C06", "C01", "C07"], min_instances=1, design="3.13")
+def emptiness_is_not_decided_by_error_swallowing_probes(ctx):
+    """Whether the storage already holds data (`_initially_empty`, which lets the database skip the first index build) is decided through the open handle, never through `os.path.exists`-style probes: those answer False on *any* stat error, so a failed I/O call would be reported as "no data" instead of reaching the caller."""
+    n = 0
+    for f in ctx.prog.all_funcs():
+        if f.module != "storages":
+            continue
+        for st in walk_local(f.node):
+            if not (isinstance(st, ast.Assign) and any(is_self_attr(t, "_initially_empty") for t in st.targets)):
+                continue
+            n += 1
+            # def-use closure of everything the store depends on (value, guards, and their definitions)
+            exprs = [st.value] + [g_[0] for g_ in guards(st)]
+            seen_names = set()
+            work = [x.id for e in exprs for x in ast.walk(e) if isinstance(x, ast.Name)]
+            while work:
+                nm = work.pop()
+                if nm in seen_names:
+                    continue
+                seen_names.add(nm)
+                for a in walk_local(f.node):
+                    if isinstance(a, ast.Assign) and any(isinstance(t, ast.Name) and t.id == nm for t in a.targets):
+                        more = [a.value] + [g_[0] for g_ in guards(a)]
+                        exprs.extend(more)
+                        work.extend(x.id for e in more for x in ast.walk(e) if isinstance(x, ast.Name))
+            probes = [c for e in exprs for c in ast.walk(e) if isinstance(c, ast.Call) and norm(c.func) in PATH_PROBES]
+            yield Ob("C13.R7", ["C13", "C06", "C01", "C07"], f"{f.qual} | {norm(st, 50)}{occ(f, st)}", not probes,
+                     "decided through the handle / constants" if not probes else
+                     f"depends on `{norm(probes[0], 50)}`, which turns a failing stat into `absent`: the I/O error never reaches the caller and "
+                     f"a non-empty file is taken for empty (valid index over nothing)", ctx.prog.loc(st))
+    if n == 0:
+        raise AnalysisError("C13.R7", "no store of _initially_empty found in storages.py")
